@@ -224,9 +224,9 @@ def _has_nested_var(ct) -> bool:
 
 
 def decode_words(ct, words_hex: str):
-    ws = valuegen.hex_words(words_hex)
-    if 0xBADC0DE0BADC0DE0 in ws:
+    if words_hex == "!COUNT":
         return None
+    ws = valuegen.hex_words(words_hex)
     v, pos = valuegen.from_words(ct, ws)
     if pos != len(ws):
         raise core.HarnessError("word stream length mismatch")
@@ -324,7 +324,7 @@ def eval_c04(ctx: core.Ctx, ex: campaign.Executed, collect_fail):
                         m = "reported-size-exceeds-buffer:"
                     elif p[0] == "D" and rc == 0 and int(p[2]) > (0 if case["bytes"] == "-" else len(case["bytes"]) // 2):
                         m = f"consumed-exceeds-supplied:{p[2]}"
-                    elif p[0] == "D" and rc == 0 and "e00ddcbae00ddcba" in p[3]:
+                    elif p[0] == "D" and rc == 0 and p[3] == "!COUNT":
                         m = "count-exceeds-storage:decoded object claims more elements than its (reduced) capacity"
                     elif p[0] == "D" and case["mode"] != "F":
                         f = fresh.get((key, case["ti"], case["bytes"]))
